@@ -192,6 +192,8 @@ def c19_run(reqs):
             e['CB_PRIOR_PPB'] = toks[toks.index('@prior') + 1]
         if '@phc' in toks:
             e['CB_PHC'] = '1'
+        if '@link' in toks:
+            e['CB_LINK'] = '1'
         q = subprocess.run(cmd, env=e, stdin=subprocess.DEVNULL, stdout=subprocess.PIPE, stderr=subprocess.DEVNULL, text=True, timeout=60)
         return f'{r} => {q.stdout.strip() or "no-output"}'
     with concurrent.futures.ThreadPoolExecutor(max_workers=12) as ex:
@@ -504,6 +506,14 @@ _c['project'] = (lambda old: lambda c: proj_first2(c) if kind(c) == 'drift' else
 _c['also'] = list(_c.get('also', [])) + ['C19']
 _c['rule'] += " || plus five process-level `drift` runs of the release daemon (as in C19): --max-drift-rate alone, with the PHC options, over a previous instance's segment: the published max_drift_ppb is 1000 x the configured ppm"
 
+# C04 at process level: the path of the segment is a symbolic link (a runtime directory laid out by the packager): a restart must go on
+# updating the file behind it, which is what attached clients have mapped (verdict C04 on `drift … @link` lines)
+_c = PROPS['C04']
+_c['gens'] = (lambda old: lambda seed, th: old(seed, th) + [lambda: c19_run(['drift 50 @link', 'drift none @link @prior 1000', 'drift 7 @link @prior 7000 @phc'])])(_c['gens'])
+_c['relevant'] = (lambda old: lambda c: old(c) or (kind(c) == 'drift' and 'linkPath' in c.tags))(_c['relevant'])
+_c['project'] = (lambda old: lambda c: proj_first2(c) if kind(c) == 'drift' else old(c))(_c['project'])
+_c['rule'] = _c.get('rule', '') + " || plus three process-level runs of the release daemon whose segment path is a symbolic link (dangling, or to a live segment left by a previous instance): the daemon must publish through the link; the link must still be there and the linked file must be the one updated"
+
 # properties whose theorem files are still being proved are not claimed yet
 for _p in ():
     PROPS[_p]['claimed'] = False
@@ -512,7 +522,7 @@ for _p in ():
 CODE_TIE = {'C05': ['Client', 'Now'], 'C06': ['Client', 'Now'], 'C14': ['Client', 'Now', 'Errors'],
             'C01': ['Client', 'Updater', 'Extract', 'Drift', 'Poller', 'Dispatch', 'Now', 'Errors'],
             'C07': ['Extract'], 'C10': ['Extract', 'Leap', 'Poller'], 'C08': ['Updater', 'Dispatch'], 'C09': ['Updater', 'Dispatch'], 'C19': ['Drift'],
-            'C02': ['Seqlock'], 'C03': ['Seqlock'], 'C04': ['Seqlock', 'Header', 'WriterNew'], 'C11': ['Seqlock'], 'C18': ['Seqlock'],
+            'C02': ['Seqlock'], 'C03': ['Seqlock'], 'C04': ['Seqlock', 'Header', 'WriterNew', 'Workers'], 'C11': ['Seqlock'], 'C18': ['Seqlock'],
             'C16': ['Header', 'WriterNew', 'Errors'], 'C17': ['Header', 'Errors'], 'C12': ['Poller', 'Now', 'Errors'], 'C13': ['Poller', 'Dispatch'],
             'C15': ['Threads', 'Workers']}
 _TIE_WHAT = {'Client': 'ClockErrorBound::compute_bound_at = computeBoundAt', 'Leap': 'ChronyClockStatus::from(u16) = leapClass',
